@@ -1271,6 +1271,8 @@ impl Ladder {
                     add_units(&mut cases, i, &sigma_char(), tier == Tier::Thorough);
                     // long single tokens of every lexical class
                     for u in ["ab", "1", "a.", "a'", "x@", "a-", "e.g. ", "1st ", "the the ", "http://a.b/", "a@b.co ",
+                        // runs of one bracket / mark, and of whole words, sentences, paragraphs
+                        "(", ")", "!", "?", ";", "…", "$", "%", "&", "—", "(a", "a)", "\"a\" ", "(a) ", "a, ", "a; ", "A b. ", "a\n\n", "a b ", "Ab ", "a - ", "a ’", "I'm ", "U.S. ",
                         // literals of unbounded length behind a fixed prefix
                         "0x\u{1}F", "0x\u{1}1", "1\u{1}0", "1e\u{1}9", "1.\u{1}0", "$\u{1}9", "a@\u{1}b.", "http://\u{1}a/", "[\u{1}a-", "[a\u{1}-z", "\"\u{1}a ", "1\u{1}st", "1\u{1}s", "19\u{1}0s", "a\u{1}'s", "a'\u{1}a'"] {
                         cases.push((i, u.to_string()));
